@@ -26,8 +26,12 @@ RULE = ("four complete families of manifests -- (a) scoping: one variable (and a
 
 
 def _expect(item):
-    cid, files = item
-    return {"id": cid, "family": cid.split("#")[0], "files": files, "expect": refmanifest.expectations(files)}
+    cid, files = item[:2]
+    opts = item[2] if len(item) > 2 else {}
+    d = {"id": cid, "family": cid.split("#")[0], "files": files,
+         "expect": refmanifest.expectations(files, phonycycle_err=bool(opts.get("phonycycle_err")))}
+    d.update(opts)      # options of the parser (-w phonycycle=err), passed to the harness with the case
+    return d
 
 
 def main(argv):
@@ -38,7 +42,7 @@ def main(argv):
     if c.replay:
         rc = subprocess.call([exe, "replay=" + c.replay])
         sys.exit(1 if rc == 1 else (0 if rc == 0 else 2))
-    fams = [("scoping", list(fm.scoping()) + list(fm.scoping2()) + list(fm.path_scope()) + list(fm.version_scope())), ("forms", list(fm.forms())),
+    fams = [("scoping", list(fm.scoping()) + list(fm.scoping2()) + list(fm.path_scope()) + list(fm.version_scope())), ("forms", list(fm.forms()) + list(fm.phonycycle_err())),
             ("lexical", list(fm.lexical(3 if c.tier == "quick" else 4))),
             ("mutations", list(fm.mutations(fm.mutation_bases())))]
     os.makedirs(os.path.join(vbuild.BUILD, "scen"), exist_ok=True)
